@@ -249,6 +249,36 @@ def divCeil (sg : Bool) (n k : BitVec w) : BitVec (promW w) :=
 def roundUp (sg : Bool) (n k : BitVec w) : BitVec (promW w) :=
   divCeil sg n k * prom sg k
 
+/-! ### mixed argument types: the usual arithmetic conversions
+
+`div_ceil<N,K>` / `round_up<N,K>` take `n` and `k` of *different* integral types and return
+`decltype(n + k)`.  Both operands are promoted (`promW`/`promSg`), then converted to the common
+type: the wider one; at equal width unsigned wins.  (LP64; only `int`/`long long` ranks occur.) -/
+
+/-- width of `decltype(n + k)` for operands of widths `wn`, `wk` -/
+def commW (wn wk : Nat) : Nat := max (promW wn) (promW wk)
+
+/-- signedness of `decltype(n + k)` -/
+def commSg (wn : Nat) (sn : Bool) (wk : Nat) (sk : Bool) : Bool :=
+  if promW wn = promW wk then promSg wn sn && promSg wk sk
+  else if promW wk < promW wn then promSg wn sn else promSg wk sk
+
+/-- conversion of an operand of signedness `sg` to a type of width `W ≥ w`:
+    sign extension for signed, zero extension for unsigned sources -/
+def conv (sg : Bool) (x : BitVec w) (W : Nat) : BitVec W :=
+  if sg then x.signExtend W else x.setWidth W
+
+/-- `div_ceil(n, k)` for `n`, `k` of different types (repaired formula, computed in the common type) -/
+def divCeilMixed (sn : Bool) (n : BitVec wn) (sk : Bool) (k : BitVec wk) : BitVec (commW wn wk) :=
+  let s := commSg wn sn wk sk
+  let n := conv sn n (commW wn wk)
+  let k := conv sk k (commW wn wk)
+  cdiv s n k + (if clt s 0 (cmod s n k) then 1 else 0)
+
+/-- `round_up(n, k)` for `n`, `k` of different types -/
+def roundUpMixed (sn : Bool) (n : BitVec wn) (sk : Bool) (k : BitVec wk) : BitVec (commW wn wk) :=
+  divCeilMixed sn n sk k * conv sk k (commW wn wk)
+
 /-- `abs_diff`: `a > b ? a - b : b - a` -/
 def absDiff (sg : Bool) (a b : BitVec w) : BitVec w :=
   if clt sg b a then a - b else b - a
